@@ -15,6 +15,8 @@ ASSUMPTIONS = [
     "one connection at a time; no TLS, no dial errors, no context expiry or deadline during the exchange (a silent broker is not among the faults: neither path arms a deadline for the raw exchange, see notes)",
     "the broker answers ApiVersions v0; advertised MaxVersion of SaslHandshake / SaslAuthenticate in {absent, -1, 0, 1, 2, 3}; MinVersion is ignored by both paths",
     "raw response read: the model counts the bytes allocated for the response body (io.ReadAll's buffer and its regrowths; append's capacity choice is only assumed to lie between 1.25x and 2x, size-class rounding ignored); the harness measures the process-wide TotalAlloc of the whole dial / round trip in a child process, which includes the client's and the in-process fake broker's other allocations (about 0.1-0.2 MB), hence the 1 MiB slack",
+    "S-conc: Mechanism.Start returns a fresh StateMachine and writes no field of the shared Mechanism value (sasl/plain: value receiver; sasl/scram: client.NewConversation per Start; xdg-go's Client is documented safe for concurrent use) — this is what makes n concurrent set-ups the product of n single ones (C18_concurrent_is_product); exercised by the conc family with forced overlap, not derived from the code",
+    "dial address: only the classes of dialer.go splitHostPortNumber matter (a port that is not a number is the one refusal); Transport with a BrokerResolver refuses such an address before dialling (no connection: outside the one-connection model, expected value given by the driver)",
     "re-authentication on a handed-out connection is not modelled (LUse excludes api keys 17 and 36)",
     "PLAIN ignores the server's payload (sasl/plain Next returns done whatever the challenge): a success response carrying junk is not a failing step for PLAIN, in the model and in the check",
 ]
@@ -42,8 +44,16 @@ def hexint(s):
     return -int(s[1:], 16) if s.startswith("-") else int(s, 16)
 
 
-def parse_args(args):
+def parse_args(args, op=None):
     f = args.split(" ")
+    au_of = lambda hs: "1" if hs not in ("-", "0") and not hs.startswith("-") else "-"
+    if op == "addr":      # <api> <mech> <address class> <hs>: the dial address, fault-free, right credentials
+        api, mech, addr, hs = f
+        return dict(path="t" if api in ("t", "tr") else "d", mech=mech, hs=hs, au=au_of(hs), cred="right", fstep="-", fkind="none",
+                    credidx="0", api=api, addr=addr)
+    if op == "conc":      # <path> <mech> <hs> <pattern>: overlapping set-ups over one Mechanism value
+        path, mech, hs, pattern = f
+        return dict(path=path, mech=mech, hs=hs, au=au_of(hs), cred="mixed", fstep="-", fkind="none", credidx="0", pattern=pattern)
     if len(f) == 7:       # op rawread: a raw response (prefix, payload bytes, ending) at step fstep of a v0 exchange
         path, mech, cred, fstep, prefix, npay, end = f
         prefix, npay = hexint(prefix), hexint(npay)
@@ -109,10 +119,44 @@ def failing_step_expected(a, feats):
 def violations_of(c):
     """The property evaluated on the implementation's own output for one case.
     Returns a list of (what, key)."""
-    a = parse_args(c["args"])
-    r = parse_result(c["go"])
+    a = parse_args(c["args"], c.get("op"))
     feats = c["feats"].split(",")
+    if c.get("op") == "conc":
+        # every connection must be what the single-connection rules say of its own script
+        creds = {"r": "right", "w": "wrongpw", "n": "nouser"}
+        parts = c["go"].split(" / ")
+        if len(parts) != len(a["pattern"]):
+            return [("no result: " + c["go"][:80], None)]
+        out = []
+        for i, (ch, g) in enumerate(zip(a["pattern"], parts)):
+            sub = dict(op="run", args=f"{a['path']} {a['mech']} {a['hs']} {a['au']} {creds[ch]} - none 0", go=g, feats=c["feats"], meas="")
+            for what, key in violations_of(sub):
+                out.append((f"{len(parts)} overlapping authentications sharing one {a['mech']} Mechanism value (credentials {a['pattern']}), connection {i} ({creds[ch]}): {what}",
+                            "group:conc-" + creds[ch]))
+        return out
+    r = parse_result(c["go"])
     out = []
+    if c.get("op") == "addr":
+        refused = a["addr"] == "svc"
+        if r["special"]:
+            if r["special"] == "NOCONN E=1" and refused and a["api"] == "tr":
+                return []     # grabConnOrConnect refuses the address before dialling
+            return [("no result: " + r["special"], None)]
+        f = dict(x.split("=", 1) for x in c["go"].split(" "))
+        for label, toks in (("", r["toks"]), (" (second connection, to the leader)", [] if f.get("X", "-") in ("-", "") else f["X"].split(","))):
+            seen = False
+            for t in toks:
+                if t == "V":
+                    seen = True
+                elif not (t.rstrip("!") == "raw" or t.rstrip("!").split(".")[0] in AUTH_KEYS) and not seen:
+                    out.append((f"dial address class '{a['addr']}' via {a['api']}: request {t} written{label} although the broker never accepted an authentication", "group:addr-unauthenticated"))
+                    break
+        if not r["E"] and "V" not in r["toks"]:
+            out.append((f"dial address class '{a['addr']}' via {a['api']}: a connection was handed out without the verdict", "group:addr-unauthenticated"))
+        if refused:
+            if r["E"] and [t for t in r["toks"] if t != "12.0"]:
+                out.append((f"a refused dial address wrote {','.join(r['toks'])}", None))
+            return out
     if r["special"] == "OOM":
         if a["path"] == "d" and a["fkind"] == "rawresp":
             return []     # Conn path allocates the announced length (observation, outside C20's scope)
@@ -389,13 +433,14 @@ def correspondence(ctx):
     for c in cases:
         fs = c["feats"].split(",")
         for f in fs:
-            if f.split("=")[0] in ("path", "mech", "hs", "cred", "fault", "fstep", "credcase", "err", "prefix", "end", "payload", "code", "msg") or "=" not in f:
+            if f.split("=")[0] in ("path", "mech", "hs", "cred", "fault", "fstep", "credcase", "err", "prefix", "end", "payload", "code", "msg", "api", "addr", "conc", "pattern") or "=" not in f:
                 hist[f] = hist.get(f, 0) + 1
         if "product" in fs:
             n_product += 1
         else:
             n_side += 1
-        if not ("fault=none" in fs and "cred=right" in fs and not any(f.startswith("credcase=") for f in fs)):
+        if not ("fault=none" in fs and "cred=right" in fs and not any(f.startswith(("credcase=", "conc=")) for f in fs)
+                and not any(f.startswith("addr=") and f != "addr=num" for f in fs)):
             nontrivial.add(hashlib.sha1((c["op"] + " " + c["args"]).encode()).hexdigest())
     samples = [c["line"] + " | " + c["go"] + " | " + c["feats"] + " | " + c.get("meas", "")
                for c in cases[:2] + cases[400:402] + cases[len(cases) // 2:len(cases) // 2 + 2] + cases[-2:]]
@@ -404,7 +449,7 @@ def correspondence(ctx):
     t_max = dict(alloc=0)
     conn_obs = {}
     for c in raw:
-        a = parse_args(c["args"])
+        a = parse_args(c["args"], "rawread")
         alloc, recv = parse_meas(c.get("meas"))
         if a["path"] == "t":
             if alloc >= t_max["alloc"]:
@@ -416,7 +461,7 @@ def correspondence(ctx):
             if c["go"].startswith("OOM"):
                 o["oom"] += 1
     model_bound_ok = all(m[0] <= 10 * m[1] + 2560 for i, m in model_meas.items()
-                         if parse_args(cases[int(i) - 1]["args"])["path"] == "t")
+                         if parse_args(cases[int(i) - 1]["args"], cases[int(i) - 1]["op"])["path"] == "t")
     return dict(evaluations=len(cases), distinct_nontrivial=len(nontrivial), hist=hist,
                 rule="EXHAUSTIVE product (tag 'product'): {Dialer.DialContext then ReadPartitions, Transport.RoundTrip(metadata)} x {PLAIN, SCRAM-SHA-256, SCRAM-SHA-512} "
                      "x {handshake v0 (raw bytes), v1 (framed)} x {right credentials, wrong password, unknown user} x {no fault, or a fault at each step "
@@ -427,6 +472,12 @@ def correspondence(ctx):
                      "by VERIF_SEED) x mechanisms x versions x {right, wrong password} x paths. Each case: fresh in-memory connection, real client, journal of the fake "
                      "broker before/after its verdict, result of Dial/RoundTrip, whether the client had closed the connection on return; compared with the extracted model's "
                      "trace for the same script, and the property's predicates are evaluated on the implementation's own output. "
+                     "Dial address (op 'addr', tag 'side'): address class in {host:9092, host, host:service-name, [::1]:9092, host:0, host:65536, empty} x "
+                     "{Dialer.DialContext, Dial, LookupPartition, DialLeader (second connection to the leader), Transport, Transport with a BrokerResolver} x mechanisms x handshake v0/v1, "
+                     "fault-free: nothing but authentication traffic before the verdict on every connection, a connection handed out only after the verdict. "
+                     "Concurrency (op 'conc', tag 'side'): 2-4 authentications overlapping in time over ONE Mechanism value (a Dialer from several goroutines; one Transport asked for several "
+                     "clusters), the fake holding each first answer until all first messages have arrived, credential patterns rr, rw, wr, rrr, rwr, rrrr, rnwr x mechanisms x versions x paths; "
+                     "every connection is judged by the single-connection rules of its own script and compared with the single-connection model. "
                      "Refusals (tag 'side', fault=errcode): error code in {0, 58, 33, 34, 35, 1, -1, 128, 255, 32767, -32768} x error_message in {null, empty string, text} in the "
                      "SaslAuthenticate response of every authentication step (handshake v1; responses encoded by hand because protocol.WriteResponse cannot emit an empty non-null "
                      "string), and every code in the ApiVersions / SaslHandshake responses (no message field; handshake v0 and v1), x mechanisms x paths; the model decides on the code alone. "
@@ -451,7 +502,10 @@ def correspondence(ctx):
                            exhaustive_scope=f"the {n_product} cases tagged 'product' enumerate the finite product completely; the {n_side} 'side' cases sample unbounded spaces (credential strings, advertised versions)",
                            traces_validated_against_impl=len(cases) - len(bad),
                            product_cases=n_product, side_cases=n_side),
-                notes=["observation outside C18's fault list (replay: build/bin/c18 -case 'd plain 1 1 right 2 silent 0'): no deadline is armed on the connection "
+                notes=["observation (replay: build/bin/c18 -case 'addr d plain svc 1', result J=. E=1 C=0): Dialer.connect returns 'could not determine host/port for SASL authentication' "
+                       "for a dial address whose port is not a number WITHOUT closing the socket it has just opened (dialer.go: the early return after splitHostPortNumber precedes any "
+                       "conn.Close()); nothing was written on it; the Transport closes its connection in the same situation. Modelled as is (PRefused has no EClose); outside C18's list of failing steps, not flagged",
+                       "observation outside C18's fault list (replay: build/bin/c18 -case 'd plain 1 1 right 2 silent 0'): no deadline is armed on the connection "
                        "during SASL set-up. Dialer path: a broker that stops answering after the TCP connect (at the handshake or any authentication step, raw or "
                        "framed) blocks DialContext beyond Dialer.Timeout and beyond the context's deadline (the harness watchdog fires at 9 s with both set to 6 s). "
                        "Transport path: RoundTrip returns 'context deadline exceeded' but the connecting goroutine stays blocked on the read with the connection "
@@ -741,7 +795,7 @@ def sasl_framing_cases(ctx):
 
     items = []
     for c in cases:
-        a = parse_args(c["args"])
+        a = parse_args(c["args"], c["op"])
         k = "sasl-framing:path=%s,hs=%s,au=%s" % (a["path"], a["hs"], a["au"])
         hist[k] = hist.get(k, 0) + 1
         nontrivial.add(c["args"])
